@@ -130,11 +130,9 @@ def _s_cfg(v):
         m2 = cfg.add_successor(entry[1])
         (i,) = m2.inputs()
         n = m2.add(DivMod(i, i))
-        m2.set_single_succ_outputs(n[0])
+        m2.set_single_succ_outputs(n[v % 2])
         cfg.branch_exit(m1[0])
         cfg.branch_exit(m2[0])
-        if v % 2:
-            cfg.branch(m2[0], m1) if False else None
 
     if v % 3 == 0:
         cfg = Cfg(tys.Bool, INT_T)
@@ -148,20 +146,20 @@ def _s_cfg(v):
 
 
 def _s_cfg_loop(v):
-    """a CFG with a back edge (the entry block gets a control-flow input)"""
+    """a CFG with a back edge (the entry block gets a control-flow input) and a dominator value edge"""
     from hugr import tys
     from hugr.build.cfg import Cfg
 
     cfg = Cfg(tys.Bool)
     with cfg.add_entry() as entry:
-        entry.set_block_outputs(*entry.inputs())
-    cfg.branch(entry[0], cfg.exit)
+        (x,) = entry.inputs()
+        entry.set_block_outputs(x)
     with cfg.add_successor(entry[1]) as b:
-        b.set_single_succ_outputs(*entry.inputs()) if False else b.set_single_succ_outputs()
-    if v % 2:
-        cfg.branch(b[0], cfg.exit)
-    else:
-        cfg.branch(b[0], cfg.exit)
+        b.set_single_succ_outputs(x)
+    cfg.branch(b[0], entry)
+    with cfg.add_successor(entry[0]) as last:
+        last.set_single_succ_outputs(x)
+    cfg.branch_exit(last[0])
     return cfg.hugr
 
 
@@ -693,8 +691,7 @@ def _oracle(h, spec, st):
                 bare = op.op_def().name
                 ext = op.op_def()._extension
                 prefix = (ext.name + ".") if ext is not None and ext.name else ""
-                ok = s["name"] == bare and full.startswith(prefix + bare) and (
-                    full[len(prefix + bare):] == "" or full[len(prefix + bare):].startswith("<"))
+                ok = s["name"] == bare and _unqualifies(bare, full, prefix)
             else:
                 ok = s["name"] == full
             if not ok:
@@ -761,8 +758,7 @@ def _oracle(h, spec, st):
                     if isinstance(op, ops.AsExtOp):
                         ext = op.op_def()._extension
                         prefix = (ext.name + ".") if ext is not None and ext.name else ""
-                        rest = long_[len(prefix + short):]
-                        ok = long_.startswith(prefix + short) and (rest == "" or rest.startswith("<"))
+                        ok = _unqualifies(short, long_, prefix)
                     else:
                         ok = short == long_
                     if not ok:
@@ -773,6 +769,16 @@ def _oracle(h, spec, st):
     if after != before:
         fails.append(Failure(site, "hugr-modified-by-rendering", _first_diff(before, after)))
     return fails
+
+
+def _unqualifies(short, long_, prefix):
+    """`long_` is `short` with at most the extension prefix in front and the `<type args>` suffix `name()` appends"""
+    for p in ("", prefix):
+        if long_.startswith(p + short):
+            rest = long_[len(p + short):]
+            if rest == "" or (rest.startswith("<") and rest.endswith(">")):
+                return True
+    return False
 
 
 def _node(h, idx):
@@ -823,7 +829,7 @@ def cases(rng, tier):
 
 
 def corpus():
-    return [{"kind": "palette", "name": "nosuch"}, {"kind": "palette", "name": "zx"}]
+    return [{"kind": "palette", "name": "nosuch"}]
 
 
 def run_impl(spec):
